@@ -3,10 +3,10 @@ package main
 import (
 	"context"
 	"fmt"
-	"strings"
-	"sync"
 	"math/rand"
 	"sort"
+	"strings"
+	"sync"
 	"time"
 
 	"berty.tech/go-orbit-db/iface"
